@@ -304,7 +304,83 @@ def correspond(ctx):
             o_fault.check(f"using-raises-at-call-{k}", after == snap, {"op": "using-raises", "k": k}, after, snap)
         else:
             o_fault.check(f"using-raises-at-call-{k}(not reached)", True, {"op": "using-raises", "k": k}, "rebuild made fewer customisation calls", "-")
-    return merge(s_key, o_rt, o_fault)
+    o_upd = Oracle(ctx, "update-spellings-and-live-vs-rebuilt")
+    for tag, inp, ok, obs, exp in update_semantics_cases(rng, 25 if not ctx.thorough else 600):
+        o_upd.check(tag, ok, inp, obs, exp)
+    return merge(s_key, o_rt, o_fault, o_upd)
+
+
+def update_semantics_cases(rng, rounds):
+    """update()/copy() = dictionary update on the *settings*, whatever spelling a key is given in; and a live object that went through a history of
+    update()/load() behaves like the object rebuilt from its own export -- calls with context keywords (user=) included.
+    yields (tag, input, ok, observed, expected)"""
+    from passlib import registry
+    from passlib.context import CryptContext
+
+    # 1. the two spellings of the global options name the same setting: the later assignment wins
+    for opt, old, new, probe in (("vary_rounds", 0.1, 0.25, lambda c: c.handler("sha256_crypt").vary_rounds), ("vary_rounds", "10%", 0, lambda c: c.handler("sha256_crypt").vary_rounds),
+                                 ("truncate_error", True, False, lambda c: c.handler("bcrypt").truncate_error), ("truncate_error", False, True, lambda c: c.handler("bcrypt").truncate_error)):
+        for k_old in (opt, "all__" + opt):
+            for k_new in (opt, "all__" + opt):
+                for how in ("update", "copy", "load-update"):
+                    inp = {"op": "update-spelling", "first": {k_old: old}, "then": {k_new: new}, "how": how}
+                    try:
+                        c = CryptContext(schemes=["sha256_crypt", "bcrypt"], **{k_old: old})
+                        if how == "update":
+                            c.update(**{k_new: new})
+                        elif how == "copy":
+                            c = c.copy(**{k_new: new})
+                        else:
+                            c.load({k_new: new}, update=True)
+                        got = probe(c)
+                        ref = probe(CryptContext(schemes=["sha256_crypt", "bcrypt"], **{k_new: new}))
+                    except Exception as e:  # noqa: BLE001
+                        got, ref = errname(e) + ": " + str(e)[:60], "the new value"
+                    yield ("update-spelling", inp, got == ref, got, ref)
+    # 2. live object after a history vs the object rebuilt from its export
+    plain = ["sha256_crypt", "md5_crypt", "ldap_md5", "des_crypt"]
+    with_user = ["postgres_md5", "oracle10", "msdcc"]
+    samples = {n: (registry.get_crypt_handler(n).using(rounds=1000).hash("pw") if n == "sha256_crypt" else registry.get_crypt_handler(n).hash("pw", **({"user": "u"} if n in with_user else {})))
+               for n in plain + with_user}
+    for _ in range(rounds):
+        c = CryptContext(schemes=rng.sample(plain, 2))
+        hist = []
+        for _k in range(rng.randrange(1, 5)):
+            schemes = rng.sample(plain, rng.randrange(1, 3)) + rng.sample(with_user, rng.choice([0, 0, 1, 2]))
+            rng.shuffle(schemes)
+            how = rng.choice(["update", "load-dict", "load-ini", "load-update"])
+            hist.append([how, schemes])
+            try:
+                if how == "update":
+                    c.update(schemes=schemes)
+                elif how == "load-dict":
+                    c.load({"schemes": schemes})
+                elif how == "load-ini":
+                    c.load("[passlib]\nschemes = " + ", ".join(schemes) + "\n")
+                else:
+                    c.load({"schemes": schemes}, update=True)
+            except Exception as e:  # noqa: BLE001
+                hist[-1].append(errname(e))
+        rebuilt = [("dict", lambda: CryptContext(**c.to_dict())), ("ini", lambda: CryptContext.from_string(c.to_string())), ("copy", lambda: c.copy())]
+
+        def behaviour(x):
+            out = []
+            for n in x.schemes():
+                for kw in ({}, {"user": "u"}):
+                    for f in (lambda: x.verify("pw", samples[n], **kw), lambda: x.needs_update(samples[n]), lambda: bool(x.hash("pw", scheme=n, **kw)) if n != "sha256_crypt" else True,
+                              lambda: x.verify_and_update("pw", samples[n], **kw)[0]):
+                        try:
+                            out.append(f())
+                        except Exception as e:  # noqa: BLE001
+                            out.append(errname(e))
+            return out
+        live = behaviour(c)
+        for nm, mk in rebuilt:
+            try:
+                other = behaviour(mk())
+            except Exception as e:  # noqa: BLE001
+                other = errname(e)
+            yield ("live-equals-rebuilt-from-" + nm, {"op": "live-vs-rebuilt", "history": hist, "via": nm}, live == other, live, other)
 
 
 def search(ctx, broken, seeds):
